@@ -173,6 +173,36 @@ def worker(ctx, job):
                     ok = verify(key, {"integrity": ctx.sri("sha256", ref.gen(n, 7)), "size": n, "time": (t0, t1), "metadata": None, "raw_metadata": None}, case, sigbase)
                     V.outcome(res, "defaults-ok" if ok else "defaults-differ")
             fsutil.wipe(cache)
+        # the default time is the time of the COMMIT: a writer that is opened, fed and then committed a little later
+        # records a time inside the commit call (not the moment it was opened or written to)
+        pre = "sw_" if side == "s" else "aw_"
+        for entry in ("create", "create_with_algo", "open"):
+            key = "default-late-%s" % entry
+            req = {"op": pre + entry, "cache": cache, "key": key}
+            if entry == "create_with_algo":
+                req["algo"] = "sha256"
+            if entry == "open":
+                req["opts"] = {}
+            ro = srv.call(req)
+            case = {"flavour": flavour, "side": side, "kind": "defaults", "entry": entry, "commit_delayed_ms": 120}
+            sigbase = "defaults:%s/%s:late-commit" % (entry, side)
+            res["evals"] += 1
+            res["distinct"].add(V.h(flavour, side, "defaults-late", entry))
+            if "ok" not in ro:
+                V.violation(res, "%s:open-%s" % (sigbase, classify(ro)), "open failed: %r" % ro, {"engine": "seqx", "case": case, "reply": ro})
+                continue
+            h = ro["ok"]["h"]
+            srv.call({"op": "w_write_all", "h": h, "data": {"gen": [9, 8]}})
+            time.sleep(0.12)
+            t0 = int(time.time() * 1000)
+            rep = srv.call({"op": "w_commit", "h": h})
+            t1 = int(time.time() * 1000) + 1
+            if "ok" not in rep:
+                V.violation(res, "%s:commit-%s" % (sigbase, classify(rep)), "commit failed: %r" % rep, {"engine": "seqx", "case": case, "reply": rep})
+                continue
+            ok = verify(key, {"integrity": ctx.sri("sha256", ref.gen(9, 8)), "size": 9, "time": (t0 - 1, t1), "metadata": None, "raw_metadata": None}, case, sigbase)
+            V.outcome(res, "defaults-ok" if ok else "defaults-differ")
+        fsutil.wipe(cache)
     fsutil.wipe(cache)
     res["samples"].append({"flavour": flavour, "side": side, "kind": kind, "cases": count or "defaults"})
     return res
